@@ -25,11 +25,11 @@ EXHAUSTIVE = {}
 
 
 def BOUNDS(tier):
-    return 'n = 1..%d, skew symbolic real > 0 (all values), two successive calls per n' % (20 if tier == 'quick' else 30)
+    return 'n = 1..%d, skew symbolic real > 0 (all values), two successive calls per n' % (20 if tier == 'quick' else 60)
 
 
 def tasks(tier, seed):
-    N = 20 if tier == 'quick' else 30
+    N = 20 if tier == 'quick' else 60
     return [{'n': n} for n in range(1, N + 1)] + [{'n': n, 'via': 'sampler'} for n in (1, 2, 3, 5)]
 
 
